@@ -1238,6 +1238,8 @@ def oset_history(rng, ty, nops=12):
             nr = len(live)
             live.append(nr)
             ops.append(f"clone {nr} {r}" if rng.random() < 0.8 else f"default {nr}")
+            if len(live) >= 3 and rng.random() < 0.6:
+                ops.append(f"clonefrom {rng.choice(live)} {rng.choice(live)}")
         elif k < 0.97:
             ops.append(f"empty {r}")
         else:
